@@ -233,6 +233,22 @@ func TestC15(t *testing.T) {
 			}
 		}
 		ev.Class("row-pairs", int64(np))
+		// 16-bit pictures widened from 8 bits whose alphas all have the high byte 0xFF (low byte 0x00..0xFF)
+		nw := 0
+		for ti, typ := range []string{"NRGBA64", "RGBA64"} {
+			for hi, helper := range []string{"NRGBA", "RGBA", "RGBA64"} {
+				for pi, par := range []int{1, 3, 16} {
+					c := Case{Src: img.Spec{Type: typ, Rect: [4]int{0, 0, 96, 40}, Parent: [4]int{0, 0, 96, 40}, Fill: "widened8", Seed: uint64(ti*9+hi*3+pi) + ev.Seed()}, Helper: helper, Par: par}
+					ev.Eval(1)
+					nw++
+					ev.NT(ev.Hash("widened8", c))
+					if k, w, _ := check(c); k != "" {
+						ev.Violation("convert", c.Helper+"/"+k, w, c)
+					}
+				}
+			}
+		}
+		ev.Class("widened-from-8-bit-nearly-opaque", int64(nw))
 	}
 	// fixed cross product on awkward geometry
 	for _, typ := range img.Types {
